@@ -215,13 +215,11 @@ def tailEms : Nat → Bytes → Bool → List Em
           tailEms fuel (q.drop (Gen.RELAY_TAILBUF - 1)) true
       else ⟨strm, c⟩ :: tailEms fuel (q.drop (Gen.RELAY_TAILBUF - 1)) labeled
 
-/-- ALL the proofs need of the size of `_flush_output`'s stack buffer (regenerated from dsh.c): it holds the
-    8 KiB the property speaks of.  A larger buffer keeps every theorem; a smaller one breaks this `decide`
-    (and the pinned tails of 8190/8191 bytes come out in several stdio calls on the real code). -/
-theorem tailbuf_ge : Spec.wholeTailBelow ≤ Gen.RELAY_TAILBUF := by decide
-
-theorem tailbuf_pos : 0 < Gen.RELAY_TAILBUF - 1 := by
-  have := tailbuf_ge; simp only [Spec.wholeTailBelow] at this; omega
+/-- the piece size of `_flush_output` (regenerated: learnt from what the code does with a rest that fills the
+    buffer) is at least one byte -- ALL that losslessness (C05) needs of it; the theorems of this directory hold
+    for every piece size, "the whole rest in one piece" included.  Only C06's 8 KiB clause asks for more
+    (`Spec.wholeTailBelow <= RELAY_TAILBUF`, an explicit hypothesis of the `tailOk` lemmas, discharged in Props/C06). -/
+theorem tailbuf_pos : 0 < Gen.RELAY_TAILBUF - 1 := by decide
 
 theorem tailbuf_cast : ((Gen.RELAY_TAILBUF : Nat) : Int) - 1 = ((Gen.RELAY_TAILBUF - 1 : Nat) : Int) := by
   have := tailbuf_pos; omega
